@@ -526,6 +526,15 @@ func c04(c *eng.Ctx) {
 		}
 	}
 	runJ2K(c, "C04.roundtrip", jobs, j2kFn, "PD-deep-precincts", "sizes {40x260, 260x260, 70x520, 260x40} x levels {5,6} x code-block {4x4, 8x8, 64x4} x precinct {32,64} x progression 0..4 on noise: precinct exponents clamped at the low resolutions with several code-block rows there (quick: half of the large cases)", c.Thorough())
+	// ---- HL: one dimension beyond 2^15 (the default precinct size): a second precinct appears although none was asked for
+	jobs = nil
+	for _, g := range []struct{ w, h, lv, nc, p, prog, ly int }{{32769, 1, 0, 1, 8, 0, 1}, {40000, 1, 0, 1, 8, 2, 1}, {2, 33000, 0, 1, 12, 0, 1}, {1, 32769, 0, 1, 8, 4, 1},
+		{70000, 2, 1, 1, 8, 1, 2}, {66000, 1, 2, 3, 8, 4, 1}, {32768, 1, 0, 1, 8, 0, 1}, {65537, 1, 1, 1, 16, 3, 1}} {
+		for k := 100; k < 102; k++ {
+			jobs = append(jobs, j2kCase{W: g.w, H: g.h, C: g.nc, P: g.p, Signed: g.p == 12, Levels: g.lv, CBW: 64, CBH: 64, Prog: g.prog, Layers: g.ly, MCT: g.nc == 3, K: k})
+		}
+	}
+	runJ2K(c, "C04.roundtrip", jobs, j2kFn, "HL-huge-lines", "8 geometries with one dimension just at or beyond 2^15 / 2^16 samples (32768, 32769, 33000, 40000, 65537, 66000, 70000) x levels 0..2 x progression x 2 noise images: bands wider than the default precinct", true)
 	// ---- X: two-colour images whose colours are corners of the sample cube (largest possible transform coefficients)
 	jobs = nil
 	for si, sz := range [][2]int{{8, 8}, {16, 16}, {17, 9}, {33, 20}} {
